@@ -311,6 +311,8 @@ Section Refine.
       - (* emptyQueue *)
         inversion Hc; subst. eexists; split; [reflexivity|]. rewrite Eq, (qr_e _ _ H). qr_build H.
       - inversion Hc; subst. eexists; split; [reflexivity|]. rewrite (qr_lv _ _ H). qr_build H.
+      - (* waitFor(0) *)
+        inversion Hc; subst. eexists; split; [reflexivity|]. rewrite Eq, (qr_e _ _ H). qr_build H.
       - inversion Hc; subst. eexists; split; [reflexivity|]. rewrite (qr_tr _ _ H). qr_build H.
     Qed.
 
